@@ -91,21 +91,70 @@ fn run_freq(args: &[Sx]) -> String {
     for a in args {
         if let Some(("it", rest)) = a.head() { state.insert(Iterations(rest[0].nat().unwrap() as u32)); }
     }
+    // optional `(same 1)`: candidate and current encode the SAME solution (tag 1); the survivor is then told by its objective
+    let mut cand_tag = 2u64;
+    for a in args {
+        if let Some(("same", rest)) = a.head() { if rest[0].nat().unwrap() == 1 { cand_tag = 1; } }
+    }
     let c = ExponentialAnnealingAcceptance::new::<P>(1.0);
     let mut acc = 0u64;
     let mut bad = 0u64;
     for _ in 0..n {
         state.populations_mut().push(vec![ind(1, cur)]);
-        state.populations_mut().push(vec![ind(2, cand)]);
+        state.populations_mut().push(vec![ind(cand_tag, cand)]);
         let r = catch(|| c.execute(&TagProblem, &mut state));
         let ok = matches!(r, Some(Ok(())));
-        let (h, who) = { let p = state.populations(); (p.len(), p.get_current().and_then(|c| c.first().map(|i| *i.solution()))) };
+        let (h, who) = { let p = state.populations(); (p.len(), p.get_current().and_then(|c| c.first().map(|i| (*i.solution(), i.objective().value().to_bits())))) };
         if !ok || h != 1 { bad += 1; }
-        match who { Some(2) => acc += 1, Some(1) => {}, _ => bad += 1 }
+        match who {
+            Some(w) if w == (cand_tag, cand.to_bits()) => acc += 1, // (an individual identical to the current one counts as the candidate)
+            Some(w) if w == (1, cur.to_bits()) => {}
+            _ => bad += 1,
+        }
         while state.populations().len() > 0 { state.populations_mut().pop(); }
     }
     unregister(id);
     list([tagged("acc", [acc.to_string()]), tagged("bad", [bad.to_string()]), tagged("used", [scr.used().to_string()])])
+}
+
+/// `(chain (fb n) (cur (tag obj)) (rest P*) (steps (tag obj xT word)*))` — a sequence of passes on ONE state: every step sets
+/// the temperature, pushes its single-individual candidate population and executes the real acceptance (fresh scripted
+/// generator holding the step's word). → `(status (trace ((tag obj) used)*) (stack P*))`; the trace has one entry per step
+/// that ended `ok` (the individual in the top population afterwards), the chain stops at the first step that did not.
+fn run_chain(args: &[Sx]) -> String {
+    let fb = field(args, "fb")[0].nat().unwrap();
+    let c0 = field(args, "cur")[0].items().unwrap();
+    let cur = vec![ind(c0[0].nat().unwrap(), c0[1].float().unwrap())];
+    let rest: Vec<Vec<Individual<P>>> = field(args, "rest").iter().map(pop_of).collect();
+    let mut state: State<P> = State::new();
+    state.insert(Populations::<P>::new());
+    state.insert(Random::new(fb));
+    state.insert(Temperature(1.0));
+    for p in rest.into_iter().rev() { state.populations_mut().push(p); }
+    state.populations_mut().push(cur);
+    let c = ExponentialAnnealingAcceptance::new::<P>(1.0);
+    let mut status = "ok";
+    let mut trace = vec![];
+    for st in field(args, "steps") {
+        let v = st.items().unwrap();
+        let (tag, obj, t, w) = (v[0].nat().unwrap(), v[1].float().unwrap(), v[2].float().unwrap(), v[3].nat().unwrap());
+        let (id, scr) = register(vec![w], fb);
+        state.insert(Random::with_rng::<ScriptRng>(id));
+        state.insert(Temperature(t));
+        state.populations_mut().push(vec![ind(tag, obj)]);
+        let r = catch(|| c.execute(&TagProblem, &mut state));
+        unregister(id);
+        match r {
+            Some(Ok(())) => {
+                let top = catch(|| { let p = state.populations(); pop_s(p.current()) }).unwrap_or("(unreadable)".into());
+                trace.push(list([top, scr.used().to_string()]));
+            }
+            Some(Err(_)) => { status = "err"; break; }
+            None => { status = "panic"; break; }
+        }
+    }
+    let stack = catch(|| stack_s(&state)).unwrap_or("(stack-unreadable)".into());
+    list([status.to_string(), tagged("trace", trace), stack])
 }
 
 /// `(cool (t x) (alpha x) (n k))` → `(ok x*)` temperatures after each execution, or `(e ctor)`.
@@ -364,11 +413,12 @@ struct SaVisitor {
     shadow_pos: usize,
     used_before: usize,
     tags: Option<(String, String)>,
+    cand_tag: u64,
 }
 impl SaVisitor {
     fn new(seed: u64) -> Self {
         SaVisitor { steps: vec![], pending: None, cool_before: None, accept_cases: vec![], swapped: false, fb: seed, script: None,
-                    id: 0, shadow: Sm::new(seed), shadow_pos: 0, used_before: 0, tags: None }
+                    id: 0, shadow: Sm::new(seed), shadow_pos: 0, used_before: 0, tags: None, cand_tag: 2 }
     }
 }
 impl Visitor for SaVisitor {
@@ -395,9 +445,11 @@ impl Visitor for SaVisitor {
                             self.steps.push("(shape)".into());
                         }
                         self.used_before = self.script.as_ref().unwrap().used();
-                        // the same frame as a prepared case: tags 2 = candidate, 1 = current, deeper populations by size only
+                        // the same frame as a prepared case: tags 2 = candidate, 1 = current (candidate also 1 when both encode
+                        // the same solution), deeper populations by size only
+                        self.cand_tag = if Q::enc(cand.solution()) == Q::enc(cur.solution()) { 1 } else { 2 };
                         let below: Vec<String> = (2..pops.len()).map(|d| list((0..pops.peek(d).len()).map(|k| format!("({} {})", 100 * d + k, fx(0.0))))).collect();
-                        self.tags = Some((format!("(stack ((2 {})) ((1 {})){}{})", fx(cand.objective().value()), fx(cur.objective().value()),
+                        self.tags = Some((format!("(stack (({} {})) ((1 {})){}{})", self.cand_tag, fx(cand.objective().value()), fx(cur.objective().value()),
                             if below.is_empty() { "" } else { " " }, below.join(" ")), below.join(" ")));
                     } else {
                         self.steps.push("(shape)".into());
@@ -421,7 +473,7 @@ impl Visitor for SaVisitor {
                             let nused = words.len();
                             if words.is_empty() { words.push(0); }
                             let input = accept_input(t, 0, &words, &stack_in);
-                            let surv = match who { "cand" | "both" => format!("((2 {}))", fx(cand)), "cur" => format!("((1 {}))", fx(cur)), _ => "(lost)".into() };
+                            let surv = match who { "cand" | "both" => format!("(({} {}))", self.cand_tag, fx(cand)), "cur" => format!("((1 {}))", fx(cur)), _ => "(lost)".into() };
                             let output = format!("(ok (stack {}{}{}) (t {}) (used {}))", surv, if below.is_empty() { "" } else { " " }, below, fx(t), nused);
                             self.accept_cases.push((cand <= cur, input, output));
                         }
@@ -453,6 +505,7 @@ const SA_ALPHA: [f64; 3] = [0.9, 0.99, 0.5];
 /// `(run (tmpl name) (v k) (i k) (iters n) (seed s) (t0 x) (alpha x))`
 fn run_run(args: &[Sx]) -> (String, Vec<(bool, String, String)>) {
     let name = field(args, "tmpl")[0].atom().unwrap().to_string();
+    if name == "noisy_sa" { return run_noisy(args); }
     let v = field(args, "v")[0].nat().unwrap() as u32;
     let i = field(args, "i")[0].nat().unwrap() as u32;
     let iters = field(args, "iters")[0].nat().unwrap() as u32;
@@ -463,11 +516,112 @@ fn run_run(args: &[Sx]) -> (String, Vec<(bool, String, String)>) {
     }
 }
 
+// ------------------------------------------------------------------ SA runs on a noisy objective (same solution, new measurement)
+/// Solutions are tags; the k-th evaluation (whoever asks) returns the k-th value of a scripted sequence: a noisy /
+/// time-dependent objective. Re-evaluating an unchanged solution therefore gives a candidate that encodes the SAME
+/// solution as the current one but carries another objective value.
+#[derive(Clone)]
+struct NoisyTag {
+    seq: Arc<Vec<f64>>,
+    probe: hcommon::problems::Probe,
+}
+impl mahf::Problem for NoisyTag {
+    type Encoding = u64;
+    type Objective = SingleObjective;
+    fn name(&self) -> &str { "noisy-tag" }
+}
+impl mahf::problems::ObjectiveFunction for NoisyTag {
+    fn objective(&self, _s: &u64) -> SingleObjective {
+        let k = self.probe.count() as usize;
+        let v = self.seq[k % self.seq.len()];
+        self.probe.record(v);
+        SingleObjective::try_from(v).unwrap()
+    }
+}
+impl HProblem for NoisyTag {
+    fn raw_f(&self, _s: &u64) -> f64 { self.seq[0] }
+    fn probe(&self) -> &hcommon::problems::Probe { &self.probe }
+    fn enc(s: &u64) -> String { s.to_string() }
+    fn kind(&self) -> &'static str { "tag" }
+}
+/// The user-supplied generation step of `sa::sa`: pass k either leaves the solution untouched (a no-op move) or
+/// replaces it by a fresh tag.
+#[derive(Clone, Serialize)]
+struct Move { moves: Vec<bool> }
+impl Component<NoisyTag> for Move {
+    fn execute(&self, _: &NoisyTag, state: &mut State<NoisyTag>) -> ExecResult<()> {
+        let it = state.try_get_value::<Iterations>().unwrap_or(0) as usize;
+        if self.moves[it % self.moves.len()] {
+            let mut pops = state.populations_mut();
+            for i in pops.current_mut().iter_mut() { *i.solution_mut() = 1000 + it as u64; }
+        }
+        Ok(())
+    }
+}
+const NOISY_T0: [f64; 6] = [1.0, 100.0, 1e-3, 0.0, f64::INFINITY, 1e-300];
+const NOISY_ALPHA: [f64; 4] = [0.9, 0.5, 0.0, 0.99];
+
+/// `(run (tmpl noisy_sa) (v k) (i m) (iters n) (seed s) (t0 x) (alpha x) (noise q))`: the generic `sa::sa` template (real
+/// acceptance, real GeometricCooling, real Loop / Evaluator) on `NoisyTag`; `i` = how the generation moves (0 never: the real
+/// `Noop`, 1 every other pass on average, 2 always), `noise` = the objective sequence (0 refining, 1 degrading, 2 noise around a
+/// level, 3 signed zeros, 4 few values with ties and +inf).
+fn run_noisy(args: &[Sx]) -> (String, Vec<(bool, String, String)>) {
+    use mahf::heuristics::sa;
+    let mv = field(args, "i")[0].nat().unwrap();
+    let iters = field(args, "iters")[0].nat().unwrap() as u32;
+    let seed = field(args, "seed")[0].nat().unwrap();
+    let t0 = field(args, "t0")[0].float().unwrap();
+    let alpha = field(args, "alpha")[0].float().unwrap();
+    let noise = field(args, "noise")[0].nat().unwrap();
+    let mut r = Sm::new(seed ^ 0x0153);
+    let len = iters as usize + 2;
+    let seq: Vec<f64> = (0..len).map(|k| match noise {
+        0 => 100.0 - k as f64,
+        1 => k as f64,
+        2 => 10.0 + (r.unit() * 2.0 - 1.0),
+        3 => if r.chance(1, 2) { -0.0 } else { 0.0 },
+        _ => *r.pick(&[1.0, 2.0, f64::INFINITY, 1.0, 0.5]),
+    }).collect();
+    let moves: Vec<bool> = (0..len).map(|_| match mv { 0 => false, 1 => r.chance(1, 2), _ => true }).collect();
+    let problem = NoisyTag { seq: Arc::new(seq), probe: hcommon::problems::Probe::new(false) };
+    let generation: Box<dyn Component<NoisyTag>> = if mv == 0 { mahf::components::utils::Noop::new() } else { Box::new(Move { moves }) };
+    let cooling = match GeometricCooling::new::<NoisyTag>(alpha, ValueOf::<Temperature>::new()) {
+        Ok(c) => c,
+        Err(_) => return ("(ctor-err (steps))".into(), vec![]),
+    };
+    let config: mahf::Configuration<NoisyTag> = mahf::Configuration::builder()
+        .do_(sa::sa::<NoisyTag, mahf::identifier::Global>(
+            sa::Parameters { t_0: t0, generation, cooling_schedule: cooling, constraints: mahf::components::utils::Noop::new() },
+            LessThanN::iterations(iters)))
+        .build();
+    let shared = Arc::new(Mutex::new(SaVisitor::new(seed)));
+    let (obs_v, obs_p) = (shared.clone(), problem.clone());
+    let res = catch(|| {
+        config.optimize_with(&problem, |state: &mut State<NoisyTag>| {
+            state.insert(Random::new(seed));
+            state.insert_evaluator(mahf::problems::Sequential::<NoisyTag>::new());
+            let first = SingleObjective::try_from([101.0, -1.0, 10.0, -0.0, 1.0][(noise as usize).min(4)]).unwrap();
+            state.populations_mut().push(vec![Individual::<NoisyTag>::new(1, first)]);
+            let (v, p) = (obs_v.clone(), obs_p.clone());
+            state.insert(mahf::verif::StepObserver::<NoisyTag>(Box::new(move |ph, name, idx, st| {
+                v.lock().unwrap().step(ph, name, idx, st, &p);
+            })));
+            Ok(())
+        }).map(|_state| ())
+    });
+    drop(obs_v);
+    let tag = match res { Some(Ok(())) => "ok", Some(Err(_)) => "err", None => "panic" };
+    let mut g = shared.lock().unwrap_or_else(|e| e.into_inner());
+    if g.swapped { unregister(g.id); }
+    (list([tag.to_string(), tagged("steps", g.steps.clone())]), std::mem::take(&mut g.accept_cases))
+}
+
 fn run_case(input: &Sx) -> String {
     let (kind, args) = input.head().unwrap();
     match kind {
         "accept" => run_accept(args),
         "freq" => run_freq(args),
+        "chain" => run_chain(args),
         "cool" => run_cool(args),
         "coolprog" => run_coolprog(args),
         "run" => run_run(args).0,
@@ -477,6 +631,23 @@ fn run_case(input: &Sx) -> String {
 
 fn accept_input(t: f64, fb: u64, words: &[u64], stack: &str) -> String {
     format!("(accept (t {}) (fb {}) {} {})", fx(t), fb, tagged("words", words.iter().map(|w| w.to_string())), stack)
+}
+/// Candidate and current with chosen solutions (tags): equal tags = both encode the same solution.
+fn two_tags(cur: f64, cand: f64, tcur: u64, tcand: u64) -> String {
+    format!("(stack (({} {})) (({} {})) ((7 {}) (8 {})))", tcand, fx(cand), tcur, fx(cur), fx(0.5), fx(0.25))
+}
+/// Draw numerators around the acceptance threshold of `p`, plus the two ends.
+fn ks_around(p: f64, rng: &mut Sm) -> Vec<u64> {
+    let two53 = (1u64 << 53) as f64;
+    let mut ks: Vec<u64> = vec![0, (1u64 << 53) - 1, rng.next() >> 11];
+    let kf = (p * two53).ceil();
+    if kf < two53 {
+        let k = kf as u64;
+        ks.push(k);
+        if k > 0 { ks.push(k - 1); }
+        if k + 1 < (1u64 << 53) { ks.push(k + 1); }
+    }
+    ks
 }
 fn two(cur: f64, cand: f64) -> String {
     format!("(stack ((2 {})) ((1 {})) ((7 {}) (8 {})))", fx(cand), fx(cur), fx(0.5), fx(0.25))
@@ -527,9 +698,18 @@ fn main() {
                     if k + 1 < (1u64 << 53) { ks.push(k + 1); }
                 }
                 let site = if cand < cur { "accept-better" } else if cand == cur { "accept-equal" } else { "accept-worse" };
-                for k in ks {
+                for &k in &ks {
                     let w = word_for_k(k, rng.next());
                     emit(site, accept_input(t, rng.next() % 1000, &[w], &two(cur, cand)));
+                }
+                // the same cell with candidate and current encoding the SAME solution (equal tags, objective values as above:
+                // a re-evaluated / noisy measurement); the survivor is told by its objective value
+                let site = if cand < cur { "accept-same-better" } else if cand == cur { "accept-same-equal" } else { "accept-same-worse" };
+                for (j, &k) in ks.iter().enumerate() {
+                    if !a.thorough && j == 2 { continue; }
+                    let w = word_for_k(k, rng.next());
+                    let tag = [1u64, 2, 7][(j + bi) % 3]; // 7 also occurs in the population below
+                    emit(site, accept_input(t, rng.next() % 1000, &[w], &two_tags(cur, cand, tag, tag)));
                 }
             }
         }
@@ -547,6 +727,13 @@ fn main() {
         format!("(stack ((2 {}) (3 {})) ((1 {})))", fx(1.0), fx(0.0), fx(2.0)),
         format!("(stack ((2 {})) ((1 {}) (4 {})))", fx(3.0), fx(2.0), fx(0.0)),
         format!("(stack ((2 {}) (3 {})) ((1 {}) (4 {})))", fx(1.0), fx(5.0), fx(2.0), fx(0.0)),
+        // equal solutions: in the frame, and in the populations below
+        format!("(stack ((1 {})) ((1 {})))", fx(1.0), fx(2.0)),
+        format!("(stack ((1 {})) ((1 {})))", fx(3.0), fx(2.0)),
+        format!("(stack ((1 {})) ((1 {})))", fx(2.0), fx(2.0)),
+        format!("(stack ((5 {})) ((5 {})) () ((5 {})) ((5 {}) (5 {})))", fx(3.0), fx(2.0), fx(3.0), fx(2.0), fx(1.0)),
+        format!("(stack ((5 {})) ((6 {})) ((5 {})) ((6 {})))", fx(1.0), fx(2.0), fx(1.0), fx(2.0)),
+        format!("(stack ((1 {}) (1 {})) ((1 {})))", fx(1.0), fx(0.0), fx(2.0)),
     ];
     for s in &shapes {
         for &t in &[1e-9, 1.0, 1e9] {
@@ -564,6 +751,88 @@ fn main() {
             emit("accept-inf", accept_input(t, 1, &[word_for_k(k, 0)], &two(-2.5, inf)));
         }
     }
+    // 2c. exact ties and the temperature extremes: every pair of numerically equal objective values (signed zeros, +inf/+inf,
+    //     tiny / huge values) and worse / better pairs, at T = 0, subnormal, smallest normal, ..., f64::MAX, +inf; distinct
+    //     and equal solutions
+    let xtemps = [0.0, 5e-324, 1e-310, 2.2250738585072014e-308, 1e-300, 1e-12, 1.0, 1e12, 1e300, f64::MAX, inf];
+    let ties: [(f64, f64); 10] = [(-0.0, 0.0), (0.0, -0.0), (0.0, 0.0), (-0.0, -0.0), (inf, inf), (1.0, 1.0), (-5.0, -5.0),
+        (1e300, 1e300), (5e-324, 5e-324), (-1e-310, -1e-310)];
+    for &(cur, cand) in &ties {
+        for &t in &xtemps {
+            for k in [0u64, 1u64 << 52, (1u64 << 53) - 1] {
+                for (tcur, tcand) in [(1u64, 2u64), (1, 1)] {
+                    if !a.thorough && k == (1u64 << 52) && tcand == 1 { continue; }
+                    emit("accept-tie", accept_input(t, 1, &[word_for_k(k, rng.next())], &two_tags(cur, cand, tcur, tcand)));
+                }
+            }
+        }
+    }
+    let pairs: [(f64, f64); 12] = [(0.0, 1.0), (-0.0, 5e-324), (0.0, 5e-324), (-5e-324, -0.0), (-5e-324, 0.0), (1.0, 1.0 + f64::EPSILON),
+        (-5.0, 1e6), (1e-310, 3e-310), (-1e300, 1e300), (1.0, 1e300), (0.0, inf), (-0.0, 2.5)];
+    for &(lo, hi) in &pairs {
+        for &t in &xtemps {
+            let p = ((lo - hi) / t).exp();
+            let ks = if p.is_nan() { vec![0, 1u64 << 52, (1u64 << 53) - 1] } else { ks_around(p, &mut rng) };
+            for (j, &k) in ks.iter().enumerate() {
+                let (tcur, tcand) = if j % 2 == 0 { (1u64, 2u64) } else { (1, 1) };
+                emit("accept-worse-extreme", accept_input(t, 1, &[word_for_k(k, rng.next())], &two_tags(lo, hi, tcur, tcand)));
+                if j < 3 {
+                    emit("accept-better-extreme", accept_input(t, 1, &[word_for_k(k, rng.next())], &two_tags(hi, lo, tcur, tcand)));
+                }
+            }
+        }
+    }
+    // 2d. chains: sequences of passes on ONE state (the survivor of a pass is the current solution of the next), solutions
+    //     from a small set (equal solutions with new objective values are frequent), temperatures constant / cooled / extreme
+    {
+        let chain_input = |cur: (u64, f64), rest: &str, steps: &[(u64, f64, f64, u64)], fb: u64| -> String {
+            format!("(chain (fb {}) (cur ({} {})) (rest{}{}) {})", fb, cur.0, fx(cur.1), if rest.is_empty() { "" } else { " " }, rest,
+                tagged("steps", steps.iter().map(|s| format!("({} {} {} {})", s.0, fx(s.1), fx(s.2), s.3))))
+        };
+        let mid = word_for_k(1u64 << 52, 0);
+        let hi_w = word_for_k((1u64 << 53) - 1, 0);
+        // the same solution measured again and again, each time a little better / worse / equal, at every temperature
+        for &t in &xtemps {
+            for &w in &[0u64, mid, hi_w] {
+                let better: Vec<(u64, f64, f64, u64)> = (1..=5).map(|k| (1u64, 100.0 - k as f64, t, w)).collect();
+                emit("accept-chain", chain_input((1, 100.0), "", &better, 1));
+                let worse: Vec<(u64, f64, f64, u64)> = (1..=5).map(|k| (1u64, 100.0 + k as f64, t, w)).collect();
+                emit("accept-chain", chain_input((1, 100.0), "((7 x3fe0000000000000))", &worse, 1));
+                let zeros: Vec<(u64, f64, f64, u64)> = (0..6).map(|k| ((k % 2) as u64 + 1, if k % 3 == 0 { 0.0 } else { -0.0 }, t, w)).collect();
+                emit("accept-chain", chain_input((1, -0.0), "", &zeros, 1));
+                let mixed: Vec<(u64, f64, f64, u64)> = vec![(1, 3.0, t, w), (1, 5.0, t, w), (2, 5.0, t, w), (2, 4.0, t, w), (2, inf, t, w), (3, 4.0, t, w), (3, 4.0, t, w)];
+                emit("accept-chain", chain_input((1, 4.0), "((1 x4010000000000000)) ()", &mixed, 1));
+            }
+        }
+        // random chains
+        let pool = [0.0, -0.0, 1.0, 1.0 + f64::EPSILON, 2.0, -3.5, 1e6, inf, 5e-324];
+        for _ in 0..(if a.thorough { 3000 } else { 300 }) {
+            let n = rng.range(1, 10) as usize;
+            let ntags = rng.range(1, 3);
+            let base = 10f64.powf(rng.unit() * 6.0 - 3.0);
+            let noisy = rng.chance(1, 2);
+            let objv = |rng: &mut Sm| if noisy { base * (1.0 + 0.1 * (rng.unit() * 2.0 - 1.0)) } else { *rng.pick(&pool) };
+            let cur = (rng.range(1, ntags), objv(&mut rng));
+            let tmode = rng.range(0, 3);
+            let mut t = match tmode { 0 => 10f64.powf(rng.unit() * 8.0 - 4.0) * if noisy { base * 0.1 } else { 1.0 }, _ => *rng.pick(&xtemps) };
+            let alpha = *rng.pick(&[0.5, 0.9, 0.0, 1e-200]);
+            let mut steps = vec![];
+            let mut prev = cur.1;
+            for _ in 0..n {
+                let o = objv(&mut rng);
+                let p = ((prev - o) / t).exp();
+                let w = if p > 0.0 && p < 1.0 && rng.chance(1, 2) {
+                    let k = (p * (1u64 << 53) as f64).ceil() as u64;
+                    word_for_k((k + rng.range(0, 2)).saturating_sub(1).min((1u64 << 53) - 1), rng.next())
+                } else { rng.next() };
+                steps.push((rng.range(1, ntags), o, t, w));
+                prev = o;
+                match tmode { 1 => t *= alpha, 2 => t = *rng.pick(&xtemps), _ => {} }
+            }
+            let rest = if rng.chance(1, 3) { "((1 x3ff0000000000000) (2 x4000000000000000)) ()" } else { "" };
+            emit("accept-chain", chain_input(cur, rest, &steps, rng.next() % 1000));
+        }
+    }
     // 3. acceptance frequencies
     let n = if a.thorough { 20000 } else { 2000 };
     for kind in ["chacha", "sm"] {
@@ -578,7 +847,18 @@ fn main() {
                 for &t in &ts {
                     let site = if cand < cur { "freq-better" } else if cand == cur { "freq-equal" } else { "freq-worse" };
                     let it = if rng.chance(1, 2) { format!(" (it {})", rng.range(0, 5)) } else { String::new() };
-                    emit(site, format!("(freq (kind {}) (cur {}) (cand {}) (t {}) (n {}) (seed {}){})", kind, fx(cur), fx(cand), fx(t), n, rng.next() % 1_000_000, it));
+                    // every third cell: candidate and current encode the same solution
+                    let same = if rng.chance(1, 3) { " (same 1)" } else { "" };
+                    emit(site, format!("(freq (kind {}) (cur {}) (cand {}) (t {}) (n {}) (seed {}){}{})", kind, fx(cur), fx(cand), fx(t), n, rng.next() % 1_000_000, it, same));
+                }
+            }
+        }
+        // ties (signed zeros) and worse / better pairs at the temperature extremes, distinct and equal solutions
+        for &(cur, cand) in &[(-0.0, 0.0), (0.0, -0.0), (1.0, 1.0), (1.0, 2.0), (2.0, 1.0), (0.0, 5e-324), (-0.0, 1.0)] {
+            for &t in &[0.0, 5e-324, 1e-310, 1e300, inf] {
+                for same in ["", " (same 1)"] {
+                    let site = if cand < cur { "freq-better" } else if cand == cur { "freq-equal" } else { "freq-worse" };
+                    emit(site, format!("(freq (kind {}) (cur {}) (cand {}) (t {}) (n {}) (seed {}){})", kind, fx(cur), fx(cand), fx(t), n / 4, rng.next() % 1_000_000, same));
                 }
             }
         }
@@ -618,6 +898,28 @@ fn main() {
                         let site = if not_worse { "run-accept-better" } else { "run-accept" };
                         out.case(site, &ci, &co);
                     }
+                }
+            }
+        }
+    }
+    // 5b. the generic `sa::sa` template on a noisy objective: generation that leaves the solution untouched (real Noop) /
+    //     sometimes / always moves, objective sequences refining, degrading, noisy, signed zeros, few values with ties and +inf
+    for noise in 0..5u64 {
+        for mv in 0..3u64 {
+            for s in 0..(if a.thorough { 6 } else { 2 }) {
+                let t0 = NOISY_T0[((noise + mv + s) % 6) as usize];
+                let alpha = NOISY_ALPHA[((noise * 3 + mv + s) % 4) as usize];
+                let alpha = if t0.is_infinite() && alpha == 0.0 { 0.5 } else { alpha }; // inf * 0 is NaN: not a temperature
+                let iters = if a.thorough { 60 } else { 20 };
+                let input = format!("(run (tmpl noisy_sa) (v 0) (i {}) (iters {}) (seed {}) (t0 {}) (alpha {}) (noise {}))",
+                    mv, iters, a.seed * 100 + s, fx(t0), fx(alpha), noise);
+                let sx = Sx::parse(&input).unwrap();
+                let (_, args) = sx.head().unwrap();
+                let (output, cases) = run_run(args);
+                out.case("run-noisy", &input, &output);
+                for (not_worse, ci, co) in cases {
+                    let site = if not_worse { "run-accept-better" } else { "run-accept" };
+                    out.case(site, &ci, &co);
                 }
             }
         }
